@@ -195,6 +195,9 @@ func classify(parent string, ents []tarEnt, named string) string {
 
 // runArchive pushes the archive as directory "d" (and optionally a named blob afterwards)
 // into a file store rooted at the sandbox's working directory.
+// archiveTitle is the title (directory name) the archive blob is pushed under.
+var archiveTitle = "d"
+
 func runArchive(sb *sandbox, ents []tarEnt, named string) string {
 	ctx := context.Background()
 	oldwd, _ := os.Getwd()
@@ -210,7 +213,7 @@ func runArchive(sb *sandbox, ents []tarEnt, named string) string {
 	if len(ents) > 0 {
 		gz := buildTarGz(ents)
 		desc := ocispec.Descriptor{MediaType: "application/vnd.verif.dir+gzip", Digest: digest.FromBytes(gz), Size: int64(len(gz)),
-			Annotations: map[string]string{ocispec.AnnotationTitle: "d", file.AnnotationUnpack: "true"}}
+			Annotations: map[string]string{ocispec.AnnotationTitle: archiveTitle, file.AnnotationUnpack: "true"}}
 		if err := st.Push(ctx, desc, bytes.NewReader(gz)); err != nil {
 			res = "err"
 		}
@@ -304,6 +307,10 @@ func runC11(seed int64, tier string, sc *Script) map[string]any {
 			if e.target == "ABS-OUTSIDE" {
 				es[i].target = filepath.Join(sb.root, "outside", "victim")
 			}
+			if strings.HasPrefix(e.target, "ABSWD:") {
+				// an absolute target that starts with the working directory and is not normalised
+				es[i].target = sb.wd + "/" + strings.TrimPrefix(e.target, "ABSWD:")
+			}
 			if strings.HasPrefix(e.name, "ABS:") {
 				es[i].name = filepath.Join(sb.root, strings.TrimPrefix(e.name, "ABS:"))
 			}
@@ -378,6 +385,15 @@ func runC11(seed int64, tier string, sc *Script) map[string]any {
 	runOne("hard-abs", []tarEnt{{'h', "d/a", "ABS-OUTSIDE"}, {'r', "d/a", ""}}, "")
 	runOne("hard-abs", []tarEnt{{'d', "d/s", ""}, {'h', "d/s/l1", "ABS-OUTSIDE"}, {'r', "d/s/l1", ""}}, "")
 	runOne("hard-dotdot", []tarEnt{{'h', "d/a", "../outside/victim"}, {'r', "d/a", ""}}, "")
+	// symbolic links whose absolute target starts with the working directory's path but leaves
+	// it through "..", and (archive pushed under the title ".") a relative target into the
+	// sibling directory whose name extends the working directory's
+	runOne("sym-abs-dotdot", []tarEnt{{'s', "d/a", "ABSWD:d/../../../../outside/victim"}, {'r', "d/a", ""}}, "")
+	runOne("sym-abs-dotdot", []tarEnt{{'d', "d/s", ""}, {'s', "d/s/l1", "ABSWD:d/d/s/../../../../../../outside/victim"}, {'r', "d/s/l1", ""}}, "")
+	archiveTitle = "."
+	runOne("sym-sibling-prefix", []tarEnt{{'s', "l", "../wd-backup/victim"}, {'r', "l", ""}}, "")
+	runOne("sym-sibling-prefix", []tarEnt{{'d', "s", ""}, {'s', "s/l", "../../wd-backup/victim"}, {'r', "s/l", ""}}, "")
+	archiveTitle = "d"
 	// a directory reached through a chain of symlinks: the ancestor check must reject the file beneath it
 	runOne("dir-chain", []tarEnt{{'d', "d/s", ""}, {'s', "d/s/l1", ".."}, {'s', "d/s/l2", "l1/../.."}, {'r', "d/s/l2/x", ""}}, "")
 	runOne("dir-chain-named", []tarEnt{{'d', "d/s", ""}, {'s', "d/s/l1", ".."}, {'s', "d/s/l2", "l1/../.."}}, "d/s/l2/x")
